@@ -66,7 +66,9 @@ CHECKS = {
    text=('Evolver.tla keeps Evolution rows as a bag and counts executions per label; TLC checks ExecutedAtMostOnce, '
          'RecordedAtMostOnce, RecordedWithinVersions, RecordedOnlyWithTables, FreshRecordsWithoutExecuting over histories with '
          'partial upgrades, re-runs, failed runs and two apps sharing labels. Replayed histories are judged on the raw rows of '
-         'django_evolution after every run and on the applied_evolution signals across the history; traces validated by EvolverTrace.'),
+         'django_evolution after every run and on the applied_evolution signals across the history; traces validated by EvolverTrace. '
+         'Ledger.tla adds the repair commands: runs interleaved with mark-evolution-applied [--all] and wipe-evolution [--app-label]; '
+         'its operation sequences are replayed through the real commands and every outcome and the rows compared step by step.'),
    design_ref='DESIGN.md 3.5, 6 (C08)',
    note='mark-evolution-applied / wipe-evolution interleavings are not yet in the model.',
    technique='TLA+ design model + TLC history generation + replay + trace validation'),
@@ -255,6 +257,8 @@ def main():
              'kind_free_text': 'router configurations and evolutions from Route.tla replayed on a two-database project'},
             {'name': 'handover', 'path': 'harness/engines/handover.py', 'serves_properties': ['C10'],
              'kind_free_text': 'handover configurations of Handover.tla built as projects with evolutions and migration files, upgraded twice'},
+            {'name': 'ledger', 'path': 'harness/engines/ledger.py', 'serves_properties': ['C08'],
+             'kind_free_text': 'runs interleaved with mark-evolution-applied / wipe-evolution from Ledger.tla, replayed through the commands'},
             {'name': 'refs', 'path': 'harness/engines/refs.py', 'serves_properties': ['C11'],
              'kind_free_text': 'TLC-enumerated reference graphs and rename/delete sequences replayed into real simulate() methods'},
             {'name': 'evograph', 'path': 'harness/engines/evograph.py', 'serves_properties': ['C09'],
